@@ -31,6 +31,10 @@ def bases(ctx, tier):
     t7 = dict(T); t7["was-dir"] = DIR
     B["retyped-paths"] = (ops.build(ctx, t7, [c("", ["md5"]), ["rm", "was-dir"], ["write", "was-dir", b"now a file"], ["rm", "a.txt"],
                                               ["mkdir", "a.txt"], ["write", "a.txt/inner.bin", b"inner"], c("", ["md5"])], expect=[0, None]), [])
+    # names that are special to string formatting, Unicode normalisation or the shell
+    t8 = {"100%_final.mov": b"percent sign", "br{ace}s {0}.txt": b"braces", "e\u0301.txt": b"decomposed e-acute", "\u00e9.txt": b"composed e-acute",
+          "d %s": DIR, "d %s/in%d.txt": b"inside", "back\\slash.txt": b"backslash", " lead.txt": b"leading blank", "emp %": DIR}
+    B["odd-names"] = (ops.build(ctx, t8, [c("", ["md5"]), c("", ["md5", "xxh64"])], expect=[0, 0]), [])
     B["failed-generation"] = (ops.build(ctx, T, [c("", ["md5"]), ["write", "a.txt", FAILED_CONTENT], c("", ["md5"]),
                                                  ["write", "a.txt", T["a.txt"]]], expect=[0, 11]), [])
     B["empty-folder"] = (ops.build(ctx, {}, [c("", ["xxh64"])], expect=[0]), [])
@@ -128,13 +132,20 @@ def eval_case(ctx, case):
     t, mt = apply_muts(base, muts)
     if t is None:
         return []
+    return judge_res(ctx, case, t, mt)
+
+
+def judge_res(ctx, case, t, mt, res=None):
+    """run the command of the case on the mutated tree t (unless its result is given) and judge the answer"""
+    base, pats, muts, cmd = case["base"], case["pats"], case["muts"], case["cmd"]
     altered, removed, new = classify(base, t, pats)
     present = {"altered": altered, "removed": removed, "new": new}
     op = {"verify": ["verify", {"root": ""}], "diff": ["diff", {"root": ""}],
           "create": ops.create("", case.get("fmts") or ["xxh64"])}[cmd]
     if case.get("spell") or case.get("v"):   # the root folder as a user may spell it / verbose output
         op = [op[0], dict(op[1], spell=case.get("spell"), v=bool(case.get("v")))]
-    res, post = ops.run_cmd(ctx, t, op, sub.NOW0 + 500, mtimes=mt)
+    if res is None:
+        res, post = ops.run_cmd(ctx, t, op, sub.NOW0 + 500, mtimes=mt)
     v = []
     sig = {"cmd": cmd, "base": case["name"], "classes": "+".join(k for k in ("altered", "removed", "new") if present[k]) or "none",
            "exit": res.exit}
@@ -178,10 +189,14 @@ def main(tier, seed):
     eng = engine.Engine(PROP, tier, seed, "model_checking")
     engine.selftest(eng)
     def covers(f):
-        # every set-up step is a create on an unchanged (or, where 11 is expected, an altered) sealed tree: C03 itself
-        return Viol(PROP, "scenario-step", {"cmd": "create", "exit": f.res.exit, "want": f.want},
-                    f"while sealing a base state: {f}", {"name": "setup", "base": f.tree, "pats": [], "muts": [], "cmd": "create",
-                                                          "fmts": f.op[1].get("fmts")} if not f.op[1].get("sf") and not f.op[1].get("root") and not f.op[1].get("i") else None)
+        # a set-up step that seals an UNCHANGED tree again and does not exit 0 contradicts the first sentence of C03: it is judged
+        # like any other case (and confirmed / replayed through eval_case); other failing steps only skip their base
+        o = f.op[1]
+        if f.want != 0 or o.get("sf") or o.get("root") or o.get("i") or not ref.generations(f.tree, ""):
+            return None
+        case = {"name": "setup", "base": f.tree, "pats": [], "muts": [], "cmd": "create", "fmts": o.get("fmts")}
+        vs = judge_res(None, case, f.tree, {}, res=f.res)
+        return vs[0] if vs else None
     B = engine.scenarios(eng, lambda: bases(eng.local_ctx(), tier), covers)
     B = {k: v for k, v in B.items() if v[0] is not None}
     cases = []
